@@ -134,8 +134,10 @@ def r2_control_flow_test(ctx):
                 ok = all(e not in b.reachable(w['else'], avoid=zero + [eb]) for e in em) and all(b.dominates(eb, e) for e in em)
     ctx.ob('C02.R2', 'error-only-with-competing-consumers', ok, b.loc(em[0]) if em else b.loc(), 'competing_consumer_sets.is_empty() dominates the error and the error is unreachable from its true branch: %s' % ok)
     from .compiler_common import family_bodies
-    hp = [bb for x in family_bodies(ctx, 'pavexc', [fn]) for bb, t in x.calls() if (callee(t) or '').endswith('has_path_connecting')]
-    ctx.ob('C02.R2', 'competition-is-per-sink', bool(hp), b.loc(), 'competing sets are computed with has_path_connecting(consumer, sink): %s' % bool(hp), nontrivial=False)
+    # reachability in the call graph, by whichever petgraph traversal (has_path_connecting per pair, or one Dfs/Bfs per consumer)
+    hp = [bb for x in family_bodies(ctx, 'pavexc', [fn]) for bb, t in x.calls()
+          if (callee(t) or '').endswith('has_path_connecting') or (callee(t) or '').startswith(('petgraph::visit::traversal::Dfs', 'petgraph::visit::traversal::Bfs'))]
+    ctx.ob('C02.R2', 'competition-is-per-sink', bool(hp), b.loc(), 'competing sets are computed from reachability in the call graph (has_path_connecting / Dfs / Bfs): %s' % bool(hp), nontrivial=False)
 
 
 def r3_scope_ancestry(ctx):
